@@ -61,6 +61,9 @@ structure St where
   /-- `_refs/tags/*.json` -/
   tags : List (Str × RefTarget)
   nextFid : Nat
+  /-- other files (transaction files of branch creations that failed after writing them): they only matter for
+  whether a directory exists -/
+  junk : List (List Str) := []
   deriving Repr
 
 def St.empty : St := { mans := [], files := [], contents := [], tags := [], nextFid := 0 }
@@ -137,7 +140,8 @@ def cloneOp (s : St) (frm to : Dir) (v : Nat) : Option St :=
 def removeUnder (s : St) (p : List Str) : St :=
   { s with
     mans := s.mans.filter (fun e => !(p.isPrefixOf (manifestPath e.1.1 e.1.2))),
-    files := s.files.filter (fun e => !(p.isPrefixOf (filePath e.1))) }
+    files := s.files.filter (fun e => !(p.isPrefixOf (filePath e.1))),
+    junk := s.junk.filter (fun q => !(p.isPrefixOf q)) }
 
 /-- `Branches::delete` after the name check: drop the contents file, then remove the cleanup directory -/
 def deleteBranchStore (s : St) (x : Str) : St :=
